@@ -10,15 +10,15 @@ def PlainComp (c : Path) : Prop := c ≠ [] ∧ c ≠ [dot] ∧ c ≠ dd
 tree contains (absolute, `..`-laden, dangling, looping) and whatever the path argument is, the location
 it arrives at consists of plain components only — no `..`, no `.`, no empty component — so joined below
 the root it names something inside the root. For every tree, every path, every fuel. -/
-theorem resolve_stays_inside (l : List Ent) : ∀ (fuel : Nat) (seen cur rest : List Path) (fin : List Path),
+theorem resolve_stays_inside (l : List Ent) : ∀ (fuel : Nat) (st : List (Path × List Path)) (seen cur rest : List Path) (fin : List Path),
     (∀ c ∈ cur, PlainComp c) →
-    (resolveLoop l fuel seen cur rest).2 = some fin →
+    (resolveLoop l fuel st seen cur rest).2 = some fin →
     ∀ c ∈ fin, PlainComp c := by
   intro fuel
   induction fuel with
-  | zero => intro seen cur rest fin _ h; simp [resolveLoop] at h
+  | zero => intro st seen cur rest fin _ h; simp [resolveLoop] at h
   | succ n ih =>
-    intro seen cur rest fin hc h
+    intro st seen cur rest fin hc h
     cases rest with
     | nil =>
       simp only [resolveLoop, Option.some.injEq] at h
@@ -26,10 +26,10 @@ theorem resolve_stays_inside (l : List Ent) : ∀ (fuel : Nat) (seen cur rest : 
     | cons c rest =>
       simp only [resolveLoop] at h
       split at h
-      · exact ih seen cur rest fin hc h
+      · exact ih st seen cur rest fin hc h
       · rename_i h1
         split at h
-        · refine ih seen cur.dropLast rest fin ?_ h
+        · refine ih st seen cur.dropLast rest fin ?_ h
           intro x hx; exact hc x (List.dropLast_subset cur hx)
         · rename_i h2
           have hplain : ∀ x ∈ cur ++ [c], PlainComp x := by
@@ -43,10 +43,10 @@ theorem resolve_stays_inside (l : List Ent) : ∀ (fuel : Nat) (seen cur rest : 
             · split at h
               · simp at h
               · split at h
-                · exact ih _ [] _ fin (by simp) h
-                · exact ih _ cur _ fin hc h
-            · exact ih seen (cur ++ [c]) rest fin hplain h
-          · exact ih seen (cur ++ [c]) rest fin hplain h
+                · exact ih _ _ [] _ fin (by simp) h
+                · exact ih _ _ cur _ fin hc h
+            · exact ih st seen (cur ++ [c]) rest fin hplain h
+          · exact ih st seen (cur ++ [c]) rest fin hplain h
 
 /-- non-vacuity: a link `a -> ../../outside` below the root resolves to `outside` INSIDE the root -/
 example : (resolve [⟨[97], false, some [46, 46, 47, 46, 46, 47, 111]⟩] [97]).2 = some [111] := by decide
